@@ -125,12 +125,14 @@ def qsl_sort_key(item):
 def should_strip_query_item(
     item, normalize_amp=True, query_item_filter=None, domain_filter=None
 ):
-    key = item[0].lower()
-
     pattern = IRRELEVANT_QUERY_AMP_RE if normalize_amp else IRRELEVANT_QUERY_RE
 
-    if pattern.match(key):
+    # NOTE: the pattern ignores ascii case by itself, lowercasing first would
+    # fold letters such as "\u212a" onto ascii ones
+    if pattern.match(item[0]):
         return True
+
+    key = item[0].lower()
 
     value = item[1]
 
